@@ -164,7 +164,9 @@ var stmtFaults = []string{"unknown-node-by-name", "unknown-node-by-expression", 
 
 func (c06) Thresholds(tier string) map[string]int64 {
 	th := map[string]int64{
-		"faults-reached":                     1800,
+		"faults-reached": 1800,
+		"host-configuration:zero-value-default-store":            600,
+		"host-configuration:nil-function-and-command-registered": 600,
 		"faults-not-reached":                 100,
 		"post-error-next-calls":              60000,
 		"long-non-yielding-run":              1,
@@ -228,11 +230,95 @@ func bodiesOf(p *hast.Program) []*[]*hast.Stmt {
 	return out
 }
 
+// hostConfigurations: two host configurations the generated programs do not produce. (a) The default store used
+// as its zero value (variable.InMemoryStorer{} instead of NewInMemoryStorer()): assignments of every type and
+// reads must work. (b) A host that registered nothing usable under a name - AddFunction(name, nil),
+// AddCommand(name, nil): a script that uses the name gets an error, like for any unknown function or command,
+// and the runner stays usable.
+func (p c06) hostConfigurations(c *core.Ctx) {
+	r := c.R
+	n := r.Range(1, 99)
+	script := fmt.Sprintf("title: Start\n---\n<<set $n to %d>>\n<<declare $b = true>>\n<<set $s to \"w\">>\n<<set $n += 1>>\nshow {$n} {$b} {$s}\n<<jump Two>>\n===\ntitle: Two\n---\n<<set $s += \"x\">>\nthen {$s} {$n}\n===\n", n)
+	zero := &variable.InMemoryStorer{}
+	rr, err, pan := mon.Create(zero, "", []string{script})
+	if err != nil || pan != "" {
+		c.Violate("creating a runner over a zero-value InMemoryStorer failed", map[string]any{"readers": []string{script}, "error": fmt.Sprint(err), "panic": pan})
+		return
+	}
+	want := []string{fmt.Sprintf("show %d True w", n+1), fmt.Sprintf("then wx %d", n+1)}
+	for i, w := range want {
+		o := rr.Next(0)
+		if o.Kind != mon.KLine || o.Text != w {
+			what := "a dialogue over the zero value of the default store does not run"
+			if o.Kind == mon.KPanic {
+				what = "Next panicked on a host configuration: the default store used as its zero value"
+			}
+			c.Violate(what, map[string]any{"readers": []string{script}, "step": i, "expected": w, "observed": o.String()})
+			return
+		}
+	}
+	if o := rr.Next(0); o.Kind != mon.KEnd {
+		c.Violate("a dialogue over the zero value of the default store does not end where it should", map[string]any{"readers": []string{script}, "observed": o.String()})
+		return
+	}
+	c.Feature("host-configuration:zero-value-default-store")
+
+	for _, use := range []string{r.Pick("{nf()}", "<<set $x to nf(1)>>", "<<call nf()>>", "<<if nf()>>\nx\n<<endif>>", "-> o <<if nf()>>\n"), "<<nc 1 two>>"} {
+		script = "title: Start\n---\nfirst\n" + use + "\nsecond\n===\n"
+		rr, err, pan = mon.Create(nil, "", []string{script})
+		if err != nil || pan != "" {
+			c.Violate("a script that calls host names failed to load", map[string]any{"readers": []string{script}, "error": fmt.Sprint(err), "panic": pan})
+			return
+		}
+		var trace []string
+		regPanic := func() (p string) {
+			defer func() {
+				if x := recover(); x != nil {
+					p = fmt.Sprint(x)
+				}
+			}()
+			rr.DR.AddFunction("nf", nil)
+			rr.DR.AddCommand("nc", nil)
+			return ""
+		}()
+		if regPanic != "" {
+			c.Violate("AddFunction / AddCommand panicked on a nil value", map[string]any{"panic": regPanic})
+			return
+		}
+		errs := 0
+		for i := 0; i < 8; i++ {
+			o := rr.Next(0)
+			trace = append(trace, o.String())
+			if o.Kind == mon.KPanic {
+				c.Violate("Next panicked on a host configuration: a nil function / command registered under the name the script uses", map[string]any{"readers": []string{script}, "trace": trace})
+				return
+			}
+			if o.Kind == mon.KErr {
+				errs++
+			}
+			if o.Kind == mon.KEnd {
+				break
+			}
+		}
+		if errs < 1 {
+			c.Violate("using a name under which the host registered a nil function / command did not surface as an error", map[string]any{"readers": []string{script}, "trace": trace})
+			return
+		}
+	}
+	c.Feature("host-configuration:nil-function-and-command-registered")
+}
+
 func (p c06) Run(c *core.Ctx) {
 	r := c.R
 	if c.Idx == 0 {
 		p.longRun(c)
 		return
+	}
+	if c.Idx%4 == 1 {
+		p.hostConfigurations(c)
+		if c.Failed() {
+			return
+		}
 	}
 	cfg := gen.DefaultFlow()
 	cfg.MaxStmts = 30
